@@ -7,6 +7,7 @@ package vrt
 
 import (
 	"fmt"
+	"os"
 	"runtime"
 	"sort"
 	"strings"
@@ -37,7 +38,12 @@ type Step struct {
 	N          int  // number of enabled threads
 	Chosen     int  // index in the canonical enabled list (running thread first if still enabled, then ascending id)
 	CurEnabled bool // the running thread was still enabled: choosing another one is a preemption
+	Names      []string
+	Clock      time.Duration
 }
+
+// DebugNames records the enabled threads at every choice (diagnostics).
+var DebugNames = os.Getenv("VERIF_DEBUG") != ""
 
 type Crash struct {
 	Thread string
@@ -52,33 +58,35 @@ type Race struct {
 }
 
 type Sched struct {
-	threads  []*thread
-	cur      *thread
-	prefix   []int
-	Trace    []Step
-	finished chan struct{}
-	Deadlock bool
-	Blocked  []string
-	Crash    *Crash
-	Horizon  bool
-	MaxPts   int
-	teardown bool
-	Points   int
-	Log      []string
-	Races    map[string]*Race
-	shadow   map[unsafe.Pointer]*shadowCell // keyed by pointer: the object stays alive, its address cannot be reused within the execution
-	objs     []*Obj
-	logObj   *Obj
-	clockObj *Obj
-	clock    time.Duration
-	Data     interface{} // per-execution harness state
-	chans    map[interface{}]*chanState
+	threads   []*thread
+	cur       *thread
+	prefix    []int
+	Trace     []Step
+	finished  chan struct{}
+	Deadlock  bool
+	Blocked   []string
+	Crash     *Crash
+	Horizon   bool
+	RaceAbort bool
+	MaxPts    int
+	teardown  bool
+	Points    int
+	Log       []string
+	Races     map[string]*Race
+	shadow    map[unsafe.Pointer]*shadowCell // keyed by pointer: the object stays alive, its address cannot be reused within the execution
+	objs      []*Obj
+	logObj    *Obj
+	clockObj  *Obj
+	clock     time.Duration
+	Data      interface{} // per-execution harness state
+	chans     map[interface{}]*chanState
 	// pruning
 	Seen     map[uint64]int
 	Budget   func(k int) int
 	Pruned   bool
 	States   int
 	Diverged string
+	tdByExit bool // teardown was started by a thread that was already exiting
 	tmu      sync.Mutex
 	finOnce  sync.Once
 }
@@ -138,9 +146,14 @@ func (s *Sched) threadMain(t *thread, body func()) {
 		}
 		if s.Crash != nil {
 			s.startTeardown()
+			s.teardownNext()
 			return
 		}
 		s.schedule(t, true)
+		if s.tdByExit {
+			s.tdByExit = false
+			s.teardownNext()
+		}
 	}()
 	if t.id != 0 {
 		<-t.wake // wait to be scheduled the first time
@@ -152,13 +165,15 @@ func (s *Sched) threadMain(t *thread, body func()) {
 	body()
 }
 
-func panicSite() string {
+func panicSite() string { return panicSiteSkip(4) }
+
+func panicSiteSkip(skip int) string {
 	pcs := make([]uintptr, 64)
-	n := runtime.Callers(3, pcs)
+	n := runtime.Callers(skip, pcs)
 	frames := runtime.CallersFrames(pcs[:n])
 	for {
 		fr, more := frames.Next()
-		if fr.Function != "" && !strings.HasPrefix(fr.Function, "runtime.") && !strings.HasPrefix(fr.Function, "verif/rt.") {
+		if fr.Function != "" && !strings.HasPrefix(fr.Function, "runtime.") && !strings.HasPrefix(fr.Function, "verif/rt.") && !strings.HasPrefix(fr.Function, "verif/shim/") {
 			fn := fr.Function
 			if i := strings.Index(fn, ".func"); i > 0 {
 				fn = fn[:i]
@@ -302,6 +317,7 @@ func (s *Sched) schedule(self *thread, exiting bool) {
 			if !exiting {
 				runtime.Goexit()
 			}
+			s.tdByExit = true
 			return
 		}
 		s.finOnce.Do(func() { close(s.finished) })
@@ -326,15 +342,27 @@ func (s *Sched) schedule(self *thread, exiting bool) {
 		if k < len(s.prefix) {
 			idx = s.prefix[k]
 			if idx >= len(en) {
-				s.Diverged = fmt.Sprintf("replay divergence at choice %d: choice %d of %d enabled", k, idx, len(en))
+				var names []string
+				for _, t := range en {
+					names = append(names, t.name+"@"+t.opName)
+				}
+				s.Diverged = fmt.Sprintf("replay divergence at choice %d: choice %d of %d enabled %v; clock=%v log=%v", k, idx, len(en), names, s.clock, s.Log)
 				s.startTeardown()
 				if !exiting {
 					runtime.Goexit()
 				}
+				s.tdByExit = true
 				return
 			}
 		}
-		s.Trace = append(s.Trace, Step{N: len(en), Chosen: idx, CurEnabled: curEnabled})
+		st := Step{N: len(en), Chosen: idx, CurEnabled: curEnabled}
+		if DebugNames {
+			for _, t := range en {
+				st.Names = append(st.Names, t.name+"@"+t.opName)
+			}
+			st.Clock = s.clock
+		}
+		s.Trace = append(s.Trace, st)
 	}
 	next := en[idx]
 	if next == self {
@@ -350,9 +378,11 @@ func (s *Sched) schedule(self *thread, exiting bool) {
 	<-self.wake
 }
 
+// startTeardown only raises the flag: the calling thread must then leave through Goexit (its own unwinding
+// completes before threadMain's deferred function wakes the next thread), so that the deferred functions of
+// different threads never run concurrently.
 func (s *Sched) startTeardown() {
 	s.teardown = true
-	s.teardownNext()
 }
 
 // teardownNext wakes parked threads one at a time so that they leave through Goexit.
@@ -566,9 +596,32 @@ func (s *Sched) race(prev epoch, prevW bool, site uint32, w bool) {
 	key := loc + ": " + a + " || " + b
 	if r, ok := s.Races[key]; ok {
 		r.Count++
+	} else {
+		s.Races[key] = &Race{Loc: loc, A: a, B: b, Count: 1}
+	}
+	if AbortOnRace && !s.teardown {
+		// after a data race "code between two points is atomic" no longer holds (and racing code may corrupt
+		// library state and spin natively): the execution ends here, the race is the verdict
+		s.RaceAbort = true
+		s.startTeardown()
+		runtime.Goexit()
+	}
+}
+
+// AbortOnRace ends an execution at its first data race.
+var AbortOnRace = true
+
+// Fatal models a Go runtime fatal error (not recoverable): the process dies.
+func Fatal(msg string) {
+	s := Current()
+	if s == nil || s.teardown {
 		return
 	}
-	s.Races[key] = &Race{Loc: loc, A: a, B: b, Count: 1}
+	if s.Crash == nil {
+		s.Crash = &Crash{Thread: s.cur.name, Value: "fatal error: " + msg, Site: panicSiteSkip(3)}
+	}
+	s.startTeardown()
+	runtime.Goexit()
 }
 
 // Access records a memory access at address p by the current thread.
